@@ -304,6 +304,7 @@ pub fn worker<E: Engine>(a: &WorkerArgs) {
     let mut cover: BTreeMap<String, BTreeSet<u64>> = BTreeMap::new();
     let mut samples = Vec::new();
     let mut runs = 0u64;
+    let mut hung_runs = 0u32;
     let start = std::time::Instant::now(); // wall time is reported, never consulted
     let mut i = a.from + ((a.offset + a.stride - a.from % a.stride) % a.stride);
     while i < a.to {
@@ -329,6 +330,15 @@ pub fn worker<E: Engine>(a: &WorkerArgs) {
         writeln!(out, "{}", line).unwrap();
         if violated && a.stop_on_violation {
             break;
+        }
+        // a run that hangs even in its coarser form is reported like any violation, but every
+        // further one costs a full watchdog period: three per worker are enough
+        if o.hung {
+            hung_runs += 1;
+            if hung_runs >= 3 {
+                *counters.entry("worker_stopped_after_three_hung_runs".into()).or_insert(0) += 1;
+                break;
+            }
         }
         i += a.stride;
     }
